@@ -142,6 +142,12 @@ def items_all():
         d2 = Variant("D2", k2, [Field("String", "s" if k2 == "named" else "")], [DEFAULT])
         add("twodefaults", Item("E", [d1] + base_variants() + [d2]))
         add("twodefaults-one-disabled", Item("E", [d1] + base_variants() + [Variant("D2", k2, [Field("String", "s" if k2 == "named" else "")], [DEFAULT, DISABLED])]))
+    for k1 in ("named",):
+        for k2 in ("tuple", "named"):
+            d1 = Variant("D1", k1, [Field("String", "text")], [DEFAULT])
+            d2 = Variant("D2", k2, [Field("String", "s" if k2 == "named" else "")], [DEFAULT])
+            add("twodefaults", Item("E", [d1] + base_variants() + [d2]))
+            add("twodefaults", Item("E", base_variants() + [d1, d2]))
     # 8 default / transparent arity
     for m, fam in ((DEFAULT, "defaultarity"), (TRANSPARENT, "transparentarity")):
         for kind, fields in (("unit", []), ("tuple", [Field("String"), Field("u8")]), ("named", [Field("String", "a"), Field("u8", "b")]), ("tuple", [])):
